@@ -91,8 +91,35 @@ class LogActionContext(ActionContext):
 
                 return log_str, field_name
 
-        log_msg = "[deep] %s" % FormatExtractor().vformat(log_msg, (), FormatDict(self.trigger_context.locals))
+        try:
+            text = FormatExtractor().vformat(log_msg, (), FormatDict(self.trigger_context.locals))
+        except ValueError:
+            # string.Formatter reads '!' and ':' in a field as conversion and format spec: '{a != b}', a lambda or a
+            # dict display in a field fail in its parser, and with them the whole message (and snapshot) was lost.
+            # Such a template is rendered with the whole text between the braces as the expression.
+            del watch_results[:]
+            _var_lookup.clear()
+            text = self.__render_plain(log_msg, FormatExtractor())
+        log_msg = "[deep] %s" % text
         return log_msg, watch_results, _var_lookup
+
+    @staticmethod
+    def __render_plain(template: str, extractor) -> str:
+        out = []
+        i = 0
+        while i < len(template):
+            char = template[i]
+            if template[i:i + 2] in ('{{', '}}'):
+                out.append(char)
+                i += 2
+            elif char == '{' and '}' in template[i:]:
+                end = template.index('}', i)
+                out.append(extractor.get_field(template[i + 1:end], (), {})[0])
+                i = end + 1
+            else:
+                out.append(char)
+                i += 1
+        return ''.join(out)
 
 
 class LogActionResult(ActionResult):
